@@ -168,8 +168,16 @@ func init() {
 			case "size":
 				w, h = I(Op{"v": step[1]}, "v"), I(Op{"v": step[2]}, "v")
 				setSize(w, h)
-				/* a dozen polls of the size (one every 25 ms), then rest */
+				/* a dozen polls of the size (one every 25 ms); on a busy machine the poller may be
+				   late: wait for a frame of the new height (at most 10 s), then rest */
 				time.Sleep(300 * time.Millisecond)
+				limit := time.Now().Add(10 * time.Second)
+				for h >= 2 && time.Now().Before(limit) {
+					if _, lines, _ := screen.snapshot(); lines == h {
+						break
+					}
+					time.Sleep(20 * time.Millisecond)
+				}
 				screen.rest(150*time.Millisecond, 5*time.Second)
 			case "key":
 				before, _, _ := screen.snapshot()
